@@ -94,6 +94,8 @@ func updateScrapingTargets(shards []*shardInfo, active map[uint64]*discovery.SDT
 			t := *tar.ShardTarget
 			t.TargetState = c.TargetState
 			t.Series = c.Series
+			// the discovery builds new target objects in every round, only the status carries the explored counts
+			t.TotalSeries = c.TotalSeries
 			s.newTargets[tar.Job] = append(s.newTargets[tar.Job], &t)
 		}
 	}
